@@ -41,6 +41,34 @@
 (* the repaired design.  BacklogCap > 0 is another known-bad variant: a      *)
 (* bounded backlog that drops the NEWEST notification when it is full (TLC  *)
 (* must find C08_LatestEventuallySent false); 0 = unbounded, the code.      *)
+(*                                                                          *)
+(* Further dimensions (each switched by a constant):                        *)
+(*  TwoResources  observer o observes resource o (own state number, own     *)
+(*     observer count, own changes) instead of all observing resource 1.    *)
+(*  SlowFirst     the FIRST rendering of a registration suspends as well:   *)
+(*     the piggy-back opportunity of a CON request runs out after           *)
+(*     EmptyAckDelay (empty ACK), the first response is then a SEPARATE     *)
+(*     response (CON with an exchange of its own / waiting in the backlog,  *)
+(*     or NON) carrying Observe 0; state changes in that window land in the *)
+(*     trigger future the ServerObservation was created with, so the loop   *)
+(*     goes round at once after the first response; Reset and time-out of   *)
+(*     the separate first response end the registration like those of any   *)
+(*     notification; a new request on the token while the first rendering   *)
+(*     is suspended cancels it (and inherits or replaces the piggy-back     *)
+(*     opportunity of the token, as _process_request does).                 *)
+(*  NonNotif      the resource answers with Unreliable tuning: every        *)
+(*     separate response is NON also for a CON registration.                *)
+(*  RstNonEnds    TRUE: a Reset carrying the message ID of the NON          *)
+(*     notification sent last to the endpoint stops the pipe that sent it   *)
+(*     (the statement: "when the observer answers a notification with       *)
+(*     Reset"); FALSE: it is ignored (known-bad variant: TLC must find      *)
+(*     C08_EndsOnRstNon false).                                             *)
+(*  Big           the representation has three blocks: every rendered       *)
+(*     response carries Block2 0/more/6 next to Observe; BlockFetch = the   *)
+(*     observer fetches block 1 with a plain GET (no Observe) on a fresh    *)
+(*     token -- nothing of the registration is touched --, or (Request kind *)
+(*     "blk") on the registration's own token, which IS a new request on    *)
+(*     the same token.  Interleaved with state changes in every order.      *)
 EXTENDS ObserveServerObs, TLC
 
 CONSTANTS NObservers, MaxChanges, MaxEnv, MaxSilence, AckTimeout, MaxTime, DropQueuedOnStop,
@@ -50,17 +78,22 @@ CONSTANTS NObservers, MaxChanges, MaxEnv, MaxSilence, AckTimeout, MaxTime, DropQ
                              \* overwritten and forgotten (known-bad variant: TLC must find
                              \* C08_LatestEventuallySent false, which shows that the window is explored)
           SharedEndpoint, \* TRUE: all observers are tokens of endpoint 1
-          BacklogCap      \* 0: unbounded (the code); n > 0: known-bad variant, see above
+          BacklogCap,     \* 0: unbounded (the code); n > 0: known-bad variant, see above
+          TwoResources, SlowFirst, EmptyAckDelay, NonNotif, RstNonEnds, Big     \* see above
 
 Observers == 1..NObservers
 Rem(o) == IF SharedEndpoint THEN 1 ELSE o
 Remotes == {Rem(o) : o \in Observers}
 Tok(o) == CASE o = 1 -> "a1" [] o = 2 -> "a2" [] OTHER -> "a3"
+Res(o) == IF TwoResources THEN o ELSE 1      \* the resource observer o observes
 Mid0 == 100                      \* the server's first message ID
+B2First == IF Big THEN 14 ELSE -1            \* Block2 0 / more / szx 6 on every rendered response
+B2Req(n) == 16 * n + 6                       \* Block2 n / - / 6 in a request
+B2Resp(n) == 16 * n + (IF n < 2 THEN 8 ELSE 0) + 6
 ReqMid(r, k) == 1000 * r + k     \* the k-th request datagram of endpoint r
 
 VARIABLES now,
-          chg,      \* state changes so far = the resource's state number
+          chg,      \* q -> state changes of resource q so far = its state number
           nreg,     \* registrations accepted so far
           reg,      \* o -> running render task of the registration: [g, num (next_observation_number), late, con]
           ex,       \* r -> open CON exchange with that remote (_active_exchanges + retransmission timer)
@@ -69,88 +102,111 @@ VARIABLES now,
           pmid,     \* r -> request datagrams sent by endpoint r
           lastReq,  \* o -> last request datagram and the reply stored for its duplicates (_recent_messages)
           nsent,    \* r -> distinct separate (CON/NON) responses put on the wire for r
-          lastNon,  \* r -> [idx, mid] of the last NON notification (target of an unjudged Reset)
-          rs,       \* o -> suspended render of the task: [on, st (the state it sampled)]
+          lastNon,  \* r -> [idx, mid, o, g] of the last NON response of a registration (target of RstNon)
+          rs,       \* o -> suspended render of the task: [on, st (the state it sampled), first (it is the first
+                    \*      rendering of the registration)]
+          ea,       \* o -> _piggyback_opportunities[(remote, token)]: [on, due (empty ACK then), mid, cur (it belongs
+                    \*      to the token's latest request datagram)]
           slot,     \* o -> servobs._trigger while the task is busy rendering: [full, v (the latest trigger value)]
           shut, fin, benv, bsil, emit, obs
 
-vars == <<now, chg, nreg, reg, ex, bl, nextMid, pmid, lastReq, nsent, lastNon, rs, slot, shut, fin, benv, bsil, emit, obs>>
+vars == <<now, chg, nreg, reg, ex, bl, nextMid, pmid, lastReq, nsent, lastNon, rs, ea, slot, shut, fin, benv, bsil, emit, obs>>
 
 NoReg == [g |-> 0, num |-> 0, late |-> FALSE, con |-> FALSE]
 NoNtf == [o |-> 0, g |-> 0, ty |-> "", mid |-> 0, code |-> 0, ob |-> -1, st |-> -1, x |-> ""]
 NoEx == [on |-> FALSE, due |-> 0, retr |-> 0, tmo |-> 0, n |-> NoNtf, idx |-> 0]
-NoRs == [on |-> FALSE, st |-> 0]
+NoRs == [on |-> FALSE, st |-> 0, first |-> FALSE]
+NoEa == [on |-> FALSE, due |-> 0, mid |-> 0, cur |-> FALSE]
+NoLastNon == [idx |-> 0, mid |-> 0, o |-> 0, g |-> 0]
 NoVal == [kind |-> "", code |-> 0, st |-> 0]
 NoSlot == [full |-> FALSE, v |-> NoVal]
 NewEx(n, idx) == [on |-> TRUE, due |-> now + AckTimeout, retr |-> 0, tmo |-> AckTimeout, n |-> n, idx |-> idx]
 
 EvAt(t, k, r, ty, mid, tok, cls, code, ob, st, g, n, x) ==
   [k |-> k, t |-> t, r |-> r, ty |-> ty, mid |-> mid, tok |-> tok, cls |-> cls, code |-> code,
-   dig |-> IF k \in {"rx", "tx"} THEN 1 ELSE 0, obs |-> ob, st |-> st, g |-> g, n |-> n, x |-> x]
+   dig |-> IF k \in {"rx", "tx"} THEN 1 ELSE 0, obs |-> ob, st |-> st, g |-> g, n |-> n, x |-> x, q |-> 0, b2 |-> -1]
+QB(e, q, b2) == [e EXCEPT !.q = q, !.b2 = b2]
 Ev(k, r, ty, mid, tok, cls, code, ob, st, g, n, x) == EvAt(now, k, r, ty, mid, tok, cls, code, ob, st, g, n, x)
 Plain(k, r, tok, st, g, n, x) == Ev(k, r, "", 0, tok, "", 0, -1, st, g, n, x)
 
-TxNtf(n) == Ev("tx", Rem(n.o), n.ty, n.mid, Tok(n.o), "resp", n.code, n.ob, n.st, n.g, 0, n.x)
+TxNtf(n) == QB(Ev("tx", Rem(n.o), n.ty, n.mid, Tok(n.o), "resp", n.code, n.ob, n.st, n.g, 0, n.x),
+                 Res(n.o), IF n.x = "S" THEN B2First ELSE -1)
 \* the finally clause of the render task: cancellation callback -> _observations.remove, update_observation_count
-StopEvs(o, g, c) == <<Plain("cancelcb", Rem(o), Tok(o), -1, g, 0, ""), Plain("obscount", 0, "", -1, 0, c - 1, "")>>
+\* (c: the observer count of o's resource before)
+StopEvs(o, g, c) == <<QB(Plain("cancelcb", Rem(o), Tok(o), -1, g, 0, ""), Res(o), -1),
+                      QB(Plain("obscount", 0, "", -1, 0, c - 1, ""), Res(o), -1)>>
 
-Count(rg) == Cardinality({o \in Observers : rg[o].g # 0})
+CountQ(rg, q) == Cardinality({o \in Observers : rg[o].g # 0 /\ Res(o) = q})
 Drop(q, g) == SelectSeq(q, LAMBDA n : n.g # g)
 Step(es) == /\ emit' = es /\ obs' = ObsFold(obs, es)
 
 \* the running tasks of the observers in S are stopped one after the other (dispatch_error, shutdown)
-RECURSIVE StopSet(_, _, _, _)
-StopSet(o, S, rg, c) == IF o > NObservers THEN << >>
-                        ELSE IF o \notin S \/ rg[o].g = 0 THEN StopSet(o + 1, S, rg, c)
-                        ELSE StopEvs(o, rg[o].g, c) \o StopSet(o + 1, S, rg, c - 1)
+RECURSIVE StopSet(_, _, _)
+StopSet(o, S, rg) == IF o > NObservers THEN << >>
+                     ELSE IF o \notin S \/ rg[o].g = 0 THEN StopSet(o + 1, S, rg)
+                     ELSE StopEvs(o, rg[o].g, CountQ(rg, Res(o))) \o StopSet(o + 1, S, [rg EXCEPT ![o] = NoReg])
 On(r) == {o \in Observers : Rem(o) = r}
 
-Init == /\ now = 0 /\ chg = 0 /\ nreg = 0
+Init == /\ now = 0 /\ chg = [q \in 1..2 |-> 0] /\ nreg = 0
         /\ reg = [o \in Observers |-> NoReg] /\ ex = [r \in Remotes |-> NoEx] /\ bl = [r \in Remotes |-> << >>]
         /\ nextMid = Mid0 /\ pmid = [r \in Remotes |-> 0]
         /\ lastReq = [o \in Observers |-> [rx |-> << >>, reply |-> << >>]]
-        /\ nsent = [r \in Remotes |-> 0] /\ lastNon = [r \in Remotes |-> [idx |-> 0, mid |-> 0]]
-        /\ rs = [o \in Observers |-> NoRs] /\ slot = [o \in Observers |-> NoSlot]
+        /\ nsent = [r \in Remotes |-> 0] /\ lastNon = [r \in Remotes |-> NoLastNon]
+        /\ rs = [o \in Observers |-> NoRs] /\ ea = [o \in Observers |-> NoEa] /\ slot = [o \in Observers |-> NoSlot]
         /\ shut = FALSE /\ fin = FALSE /\ benv = MaxEnv /\ bsil = MaxSilence
         /\ emit = << >> /\ obs = ObsInit
 
-TimerDue == \E r \in Remotes : ex[r].on /\ ex[r].due <= now
+TimerDue == \/ \E r \in Remotes : ex[r].on /\ ex[r].due <= now
+            \/ \E o \in Observers : ea[o].on /\ ea[o].due <= now
 
 (* -- a new request datagram of observer o on its token ---------------------- *)
-(*    kind "reg": GET Observe=0;  "dereg": GET Observe=1;  "plain": GET        *)
+(*    kind "reg": GET Observe=0;  "dereg": GET Observe=1;  "plain": GET;       *)
+(*    "blk": GET Block2 1/-/6 without Observe (a block fetched on the          *)
+(*    registration's own token: a new request on that token like any other)    *)
 Request(o, ty, kind) ==
   /\ ~shut /\ ~fin /\ benv > 0
   /\ LET r == Rem(o)
+         q == Res(o)
          mid == ReqMid(r, pmid[r])
          ob == CASE kind = "reg" -> 0 [] kind = "dereg" -> 1 [] OTHER -> -1
          old == reg[o].g
-         c0 == Count(reg)
+         c0 == CountQ(reg, q)
          c1 == IF old # 0 THEN c0 - 1 ELSE c0
          g == IF kind = "reg" THEN nreg + 1 ELSE 0
-         rty == IF ty = "CON" THEN "ACK" ELSE "NON"         \* immediate response: piggy-backed on the ACK
-         rmid == IF ty = "CON" THEN mid ELSE nextMid
-         mk(t) == <<EvAt(t, "rx", r, ty, mid, Tok(o), "req", 1, ob, -1, 0, 0, "obs"),
-                    EvAt(t, "tx", r, rty, rmid, Tok(o), "resp", 69, IF kind = "reg" THEN 0 ELSE -1, chg, g, 0, "S")>>
+         \* _process_request: a CON request opens the piggy-back opportunity of (remote, token), replacing a
+         \* pending one; a NON request leaves a pending one where it is (its response then uses it)
+         pig == IF ty = "CON" THEN [on |-> TRUE, due |-> now + EmptyAckDelay, mid |-> mid, cur |-> TRUE]
+                ELSE [ea[o] EXCEPT !.cur = FALSE]
+         susp == SlowFirst /\ kind = "reg"                  \* the first rendering suspends
+         rty == IF pig.on THEN "ACK" ELSE "NON"             \* immediate response: piggy-backed on the ACK
+         rmid == IF pig.on THEN pig.mid ELSE nextMid
+         sent == ~susp /\ ~pig.on                           \* a separate (NON) response goes out now
+         rxE(t) == QB(EvAt(t, "rx", r, ty, mid, Tok(o), "req", 1, ob, -1, 0, 0, "obs"), q, IF kind = "blk" THEN B2Req(1) ELSE -1)
+         txE(t) == QB(EvAt(t, "tx", r, rty, rmid, Tok(o), "resp", 69, IF kind = "reg" THEN 0 ELSE -1, chg[q], g, 0, "S"),
+                      q, IF kind = "blk" THEN B2Resp(1) ELSE B2First)
          regEvs == IF kind = "reg"
-                     THEN <<Plain("accept", r, Tok(o), -1, g, c1, ""), Plain("obscount", 0, "", -1, 0, c1 + 1, "")>>
+                     THEN <<QB(Plain("accept", r, Tok(o), -1, g, c1, ""), q, -1), QB(Plain("obscount", 0, "", -1, 0, c1 + 1, ""), q, -1)>>
                      ELSE << >>
-     IN /\ Step(<<mk(now)[1]>>
+     IN /\ Step(<<rxE(now)>>
                 \o (IF old # 0 THEN StopEvs(o, old, c0) ELSE << >>)      \* the overridden pipe's task is cancelled first
                 \o regEvs
-                \o <<Plain("render", r, Tok(o), chg, g, 0, "S"), mk(now)[2]>>)
-        /\ reg' = [reg EXCEPT ![o] = IF kind = "reg" THEN [g |-> g, num |-> 0, late |-> FALSE, con |-> ty = "CON"] ELSE NoReg]
+                \o <<QB(Plain("render", r, Tok(o), chg[q], g, 0, "S"), q, -1)>>
+                \o (IF susp THEN << >> ELSE <<txE(now)>>))
+        /\ reg' = [reg EXCEPT ![o] = IF kind = "reg" THEN [g |-> g, num |-> 0, late |-> FALSE, con |-> ty = "CON" /\ ~NonNotif] ELSE NoReg]
         /\ nreg' = IF kind = "reg" THEN nreg + 1 ELSE nreg
-        /\ nextMid' = IF ty = "CON" THEN nextMid ELSE nextMid + 1
-        /\ nsent' = IF ty = "CON" THEN nsent ELSE [nsent EXCEPT ![r] = @ + 1]
-        /\ lastNon' = IF ty = "CON" THEN lastNon ELSE [lastNon EXCEPT ![r] = [idx |-> nsent[r] + 1, mid |-> nextMid]]
+        /\ nextMid' = IF sent THEN nextMid + 1 ELSE nextMid
+        /\ nsent' = IF sent THEN [nsent EXCEPT ![r] = @ + 1] ELSE nsent
+        /\ lastNon' = IF sent /\ kind = "reg" THEN [lastNon EXCEPT ![r] = [idx |-> nsent[r] + 1, mid |-> nextMid, o |-> o, g |-> g]] ELSE lastNon
         \* repaired design: responses to an earlier request on the same token that still wait are void
         \* (those on the endpoint's other tokens stay)
         /\ bl' = IF DropQueuedOnStop THEN [bl EXCEPT ![r] = SelectSeq(@, LAMBDA n : n.o # o)] ELSE bl
-        /\ lastReq' = [lastReq EXCEPT ![o] = [rx |-> <<mk(0)[1]>>, reply |-> IF ty = "CON" THEN <<mk(0)[2]>> ELSE << >>]]
+        /\ lastReq' = [lastReq EXCEPT ![o] = [rx |-> <<rxE(0)>>, reply |-> IF ty = "CON" /\ ~susp THEN <<txE(0)>> ELSE << >>]]
         /\ pmid' = [pmid EXCEPT ![r] = @ + 1]
-        \* a suspended render of the overridden pipe is cancelled with its task (the first rendering of
-        \* the new registration is not suspended: its response is the piggy-backed one)
-        /\ rs' = [rs EXCEPT ![o] = NoRs] /\ slot' = [slot EXCEPT ![o] = NoSlot]
+        \* a suspended render of the overridden pipe is cancelled with its task; the first rendering of the new
+        \* registration answers at once (piggy-backed / NON) unless SlowFirst suspends it
+        /\ rs' = [rs EXCEPT ![o] = IF susp THEN [on |-> TRUE, st |-> chg[q], first |-> TRUE] ELSE NoRs]
+        /\ slot' = [slot EXCEPT ![o] = NoSlot]
+        /\ ea' = [ea EXCEPT ![o] = IF susp THEN pig ELSE NoEa]
   /\ benv' = benv - 1
   /\ UNCHANGED <<now, chg, ex, shut, fin, bsil>>
 
@@ -160,54 +216,58 @@ DupRequest(o) ==
   /\ Step(<<[lastReq[o].rx[1] EXCEPT !.t = now]>>
           \o [i \in 1..Len(lastReq[o].reply) |-> [lastReq[o].reply[i] EXCEPT !.t = now]])
   /\ benv' = benv - 1
-  /\ UNCHANGED <<now, chg, nreg, reg, ex, bl, nextMid, pmid, lastReq, nsent, lastNon, rs, slot, shut, fin, bsil>>
+  /\ UNCHANGED <<now, chg, nreg, reg, ex, bl, nextMid, pmid, lastReq, nsent, lastNon, rs, ea, slot, shut, fin, bsil>>
 
 (* -- an unrelated request of endpoint r: plain GET on a fresh token ----------- *)
-(*    (nothing that waits for r is touched by it)                               *)
-Unrelated(r, ty) ==
+(*    (nothing that waits for r, and no registration, is touched by it);        *)
+(*    blk: it asks for block 1 of resource q's representation                   *)
+Unrelated(r, ty, q, blk) ==
   /\ ~shut /\ ~fin /\ benv > 0
   /\ LET mid == ReqMid(r, pmid[r]) IN
-     Step(<<Ev("rx", r, ty, mid, "c1", "req", 1, -1, -1, 0, 0, "obs"),
-            Plain("render", r, "c1", chg, 0, 0, "S"),
-            Ev("tx", r, IF ty = "CON" THEN "ACK" ELSE "NON", IF ty = "CON" THEN mid ELSE nextMid, "c1", "resp", 69, -1, chg, 0, 0, "S")>>)
+     Step(<<QB(Ev("rx", r, ty, mid, "c1", "req", 1, -1, -1, 0, 0, "obs"), q, IF blk THEN B2Req(1) ELSE -1),
+            QB(Plain("render", r, "c1", chg[q], 0, 0, "S"), q, -1),
+            QB(Ev("tx", r, IF ty = "CON" THEN "ACK" ELSE "NON", IF ty = "CON" THEN mid ELSE nextMid, "c1", "resp", 69, -1, chg[q], 0, 0, "S"),
+               q, IF blk THEN B2Resp(1) ELSE B2First)>>)
   /\ nextMid' = IF ty = "CON" THEN nextMid ELSE nextMid + 1
   /\ nsent' = IF ty = "CON" THEN nsent ELSE [nsent EXCEPT ![r] = @ + 1]
   /\ pmid' = [pmid EXCEPT ![r] = @ + 1]
   /\ benv' = benv - 1
-  /\ UNCHANGED <<now, chg, nreg, reg, ex, bl, lastReq, lastNon, rs, slot, shut, fin, bsil>>
+  /\ UNCHANGED <<now, chg, nreg, reg, ex, bl, lastReq, lastNon, rs, ea, slot, shut, fin, bsil>>
 
-(* -- a burst of k state changes inside one callback --------------------------- *)
+(* -- a burst of k state changes of resource q inside one callback ------------- *)
 (*    x = ""       updated_state()                 -> trigger(None)             *)
 (*    x = "ok"     trigger(2.05 explicit)      x = "unsucc"  trigger(4.04)      *)
 (*    x = "last"   trigger(None, is_last=True)                                  *)
 (*    every render task wakes once afterwards and sees only the last trigger.   *)
-\* the task puts one notification on the wire (or into the backlog) and, if it is the last, runs its finally
-Emit(o, acc, kind, code, st, isLast) ==
+\* the task puts one notification on the wire (or into the backlog) and, if it is the last, runs its finally;
+\* first: it is the (separate) first response of the registration -- Observe 0, the counter stays
+EmitN(o, acc, kind, code, st, isLast, first) ==
   LET R == acc.reg[o]
       r == Rem(o)
       n == [o |-> o, g |-> R.g, ty |-> IF R.con THEN "CON" ELSE "NON", mid |-> acc.mid, code |-> code,
-            ob |-> IF isLast THEN -1 ELSE R.num + 1, st |-> st, x |-> kind]
+            ob |-> IF isLast THEN -1 ELSE IF first THEN 0 ELSE R.num + 1, st |-> st, x |-> kind]
       queued == R.con /\ acc.ex[r].on           \* NSTART = 1: waits behind the open exchange
       full == queued /\ BacklogCap > 0 /\ Len(acc.bl[r]) >= BacklogCap      \* known-bad variant: the newest is dropped
   IN [evs |-> acc.evs \o (IF queued THEN << >> ELSE <<TxNtf(n)>>) \o (IF isLast THEN StopEvs(o, R.g, acc.cnt) ELSE << >>),
       cnt |-> IF isLast THEN acc.cnt - 1 ELSE acc.cnt,
       mid |-> acc.mid + 1,
-      reg |-> [acc.reg EXCEPT ![o] = IF isLast THEN NoReg ELSE [R EXCEPT !.num = R.num + 1]],
+      reg |-> [acc.reg EXCEPT ![o] = IF isLast THEN NoReg ELSE IF first THEN R ELSE [R EXCEPT !.num = R.num + 1]],
       ex |-> IF queued \/ ~R.con THEN acc.ex ELSE [acc.ex EXCEPT ![r] = NewEx(n, acc.nsent[r] + 1)],
       bl |-> IF queued /\ ~full THEN [acc.bl EXCEPT ![r] = Append(acc.bl[r], n)] ELSE acc.bl,
       nsent |-> IF queued THEN acc.nsent ELSE [acc.nsent EXCEPT ![r] = acc.nsent[r] + 1],
-      lastNon |-> IF R.con THEN acc.lastNon ELSE [acc.lastNon EXCEPT ![r] = [idx |-> acc.nsent[r] + 1, mid |-> acc.mid]],
+      lastNon |-> IF R.con THEN acc.lastNon ELSE [acc.lastNon EXCEPT ![r] = [idx |-> acc.nsent[r] + 1, mid |-> acc.mid, o |-> o, g |-> R.g]],
       rs |-> [acc.rs EXCEPT ![o] = NoRs],
       slot |-> IF isLast THEN [acc.slot EXCEPT ![o] = NoSlot] ELSE acc.slot]
+Emit(o, acc, kind, code, st, isLast) == EmitN(o, acc, kind, code, st, isLast, FALSE)
 
 \* the task wakes with trigger value v (the slot has been re-armed): an explicit response is sent as it
 \* is; otherwise the resource is rendered -- at once, or (SlowRender) sampled now and produced at Release
 Serve(o, acc, v, stNow) ==
   LET R == acc.reg[o]
-      rend == <<Plain("render", Rem(o), Tok(o), stNow, R.g, 0, "S")>>
+      rend == <<QB(Plain("render", Rem(o), Tok(o), stNow, R.g, 0, "S"), Res(o), -1)>>
   IN IF v.kind = "E" THEN Emit(o, acc, "E", v.code, v.st, R.late \/ v.code = 132)
      ELSE IF SlowRender
-       THEN [acc EXCEPT !.evs = acc.evs \o rend, !.rs = [acc.rs EXCEPT ![o] = [on |-> TRUE, st |-> stNow]]]
+       THEN [acc EXCEPT !.evs = acc.evs \o rend, !.rs = [acc.rs EXCEPT ![o] = [on |-> TRUE, st |-> stNow, first |-> FALSE]]]
        ELSE Emit(o, [acc EXCEPT !.evs = acc.evs \o rend], "S", 69, stNow, R.late)
 
 ChgOne(o, acc, st1, x) ==
@@ -217,45 +277,68 @@ ChgOne(o, acc, st1, x) ==
            ELSE [kind |-> "S", code |-> 0, st |-> 0]
       acc1 == [acc EXCEPT !.reg = [acc.reg EXCEPT ![o] = [acc.reg[o] EXCEPT !.late = acc.reg[o].late \/ x = "last"]]]
   IN IF acc.rs[o].on
-       THEN \* the task is inside render(): the trigger lands in the re-armed slot (latest value wins)
+       THEN \* the task is inside render() -- of a notification: the trigger lands in the re-armed slot; of the
+            \* first response: in the future the ServerObservation was born with -- (latest value wins)
             [acc1 EXCEPT !.slot = [acc.slot EXCEPT ![o] = [full |-> TRUE, v |-> v]]]
        ELSE Serve(o, acc1, v, st1)
 
-\* the observations are triggered, and their tasks wake, in the order in which they were registered
-RECURSIVE ChgFold(_, _, _, _, _)
-ChgFold(g, rg0, acc, st1, x) ==
+\* the observations of resource q are triggered, and their tasks wake, in the order in which they were registered
+RECURSIVE ChgFold(_, _, _, _, _, _)
+ChgFold(g, rg0, acc, st1, x, q) ==
   IF g > nreg THEN acc
-  ELSE LET S == {o \in Observers : rg0[o].g = g} IN
-       ChgFold(g + 1, rg0, IF S = {} THEN acc ELSE ChgOne(CHOOSE o \in S : TRUE, acc, st1, x), st1, x)
+  ELSE LET S == {o \in Observers : rg0[o].g = g /\ Res(o) = q} IN
+       ChgFold(g + 1, rg0, IF S = {} THEN acc ELSE ChgOne(CHOOSE o \in S : TRUE, acc, st1, x), st1, x, q)
 
-Change(k, x) ==
-  /\ ~shut /\ ~fin /\ chg + k <= MaxChanges
-  /\ LET acc0 == [evs |-> [i \in 1..k |-> Plain("change", 0, "", chg + i, 0, 0, x)],
-                  cnt |-> Count(reg), mid |-> nextMid, reg |-> reg, ex |-> ex, bl |-> bl,
+Change(k, x, q) ==
+  /\ ~shut /\ ~fin /\ chg[1] + chg[2] + k <= MaxChanges
+  /\ LET acc0 == [evs |-> [i \in 1..k |-> QB(Plain("change", 0, "", chg[q] + i, 0, 0, x), q, -1)],
+                  cnt |-> CountQ(reg, q), mid |-> nextMid, reg |-> reg, ex |-> ex, bl |-> bl,
                   nsent |-> nsent, lastNon |-> lastNon, rs |-> rs, slot |-> slot]
-         acc == ChgFold(1, reg, acc0, chg + k, x)
+         acc == ChgFold(1, reg, acc0, chg[q] + k, x, q)
      IN /\ Step(acc.evs)
         /\ reg' = acc.reg /\ ex' = acc.ex /\ bl' = acc.bl /\ nsent' = acc.nsent /\ lastNon' = acc.lastNon
         /\ nextMid' = acc.mid /\ rs' = acc.rs /\ slot' = acc.slot
-  /\ chg' = chg + k
-  /\ UNCHANGED <<now, nreg, pmid, lastReq, shut, fin, benv, bsil>>
+  /\ chg' = [chg EXCEPT ![q] = @ + k]
+  /\ UNCHANGED <<now, nreg, pmid, lastReq, ea, shut, fin, benv, bsil>>
 
 (* -- the suspended renderer of o's task is released: it produces the response   *)
 (*    for the state it sampled; the loop then looks at the slot again ----------- *)
+(*    The first response of a registration is piggy-backed while the           *)
+(*    opportunity lasts, a separate response afterwards; it is never the last  *)
+(*    one by is_last (only the loop looks at that), and the loop goes round at *)
+(*    once when a trigger arrived during the first rendering.                  *)
 Release(o) ==
   /\ ~fin /\ rs[o].on
   /\ LET R == reg[o]
-         acc0 == [evs |-> <<Plain("release", Rem(o), Tok(o), -1, R.g, 0, "")>>,
-                  cnt |-> Count(reg), mid |-> nextMid, reg |-> reg, ex |-> ex, bl |-> bl,
+         q == Res(o)
+         acc0 == [evs |-> <<QB(Plain("release", Rem(o), Tok(o), -1, R.g, 0, ""), q, -1)>>,
+                  cnt |-> CountQ(reg, q), mid |-> nextMid, reg |-> reg, ex |-> ex, bl |-> bl,
                   nsent |-> nsent, lastNon |-> lastNon, rs |-> rs, slot |-> slot]
+         pigE(t) == QB(EvAt(t, "tx", Rem(o), "ACK", ea[o].mid, Tok(o), "resp", 69, 0, rs[o].st, R.g, 0, "S"), q, B2First)
+         f1 == IF ea[o].on
+                 THEN [acc0 EXCEPT !.evs = acc0.evs \o <<pigE(now)>>, !.rs = [acc0.rs EXCEPT ![o] = NoRs]]
+                 ELSE EmitN(o, acc0, "S", 69, rs[o].st, FALSE, TRUE)
          a1 == Emit(o, acc0, "S", 69, rs[o].st, R.late)          \* is_last is looked at after the rendering
-         acc == IF R.late \/ ~slot[o].full THEN a1
+         acc == IF rs[o].first
+                  THEN IF slot[o].full THEN Serve(o, [f1 EXCEPT !.slot = [f1.slot EXCEPT ![o] = NoSlot]], slot[o].v, chg[q]) ELSE f1
+                ELSE IF R.late \/ ~slot[o].full THEN a1
                 ELSE IF ~RearmBeforeRender THEN [a1 EXCEPT !.slot = [a1.slot EXCEPT ![o] = NoSlot]]
-                ELSE Serve(o, [a1 EXCEPT !.slot = [a1.slot EXCEPT ![o] = NoSlot]], slot[o].v, chg)
+                ELSE Serve(o, [a1 EXCEPT !.slot = [a1.slot EXCEPT ![o] = NoSlot]], slot[o].v, chg[q])
      IN /\ Step(acc.evs)
         /\ reg' = acc.reg /\ ex' = acc.ex /\ bl' = acc.bl /\ nsent' = acc.nsent /\ lastNon' = acc.lastNon
         /\ nextMid' = acc.mid /\ rs' = acc.rs /\ slot' = acc.slot
-  /\ UNCHANGED <<now, chg, nreg, pmid, lastReq, shut, fin, benv, bsil>>
+        /\ ea' = IF rs[o].first THEN [ea EXCEPT ![o] = NoEa] ELSE ea
+        /\ lastReq' = IF rs[o].first /\ ea[o].on /\ ea[o].cur THEN [lastReq EXCEPT ![o].reply = <<pigE(0)>>] ELSE lastReq
+  /\ UNCHANGED <<now, chg, nreg, pmid, shut, fin, benv, bsil>>
+
+(* -- the piggy-back opportunity of o's token runs out: empty ACK --------------- *)
+EmptyAck(o) ==
+  /\ ~fin /\ ea[o].on /\ ea[o].due = now
+  /\ LET e(t) == EvAt(t, "tx", Rem(o), "ACK", ea[o].mid, "", "empty", 0, -1, -1, 0, 0, "") IN
+     /\ Step(<<e(now)>>)
+     /\ lastReq' = IF ea[o].cur THEN [lastReq EXCEPT ![o].reply = <<e(0)>>] ELSE lastReq
+  /\ ea' = [ea EXCEPT ![o] = NoEa]
+  /\ UNCHANGED <<now, chg, nreg, reg, ex, bl, nextMid, pmid, nsent, lastNon, rs, slot, shut, fin, benv, bsil>>
 
 (* -- _continue_backlog: the next waiting notification goes out ----------------- *)
 Continue(r, pre, post, q) ==
@@ -270,7 +353,7 @@ Continue(r, pre, post, q) ==
 Ack(r) ==
   /\ ~shut /\ ~fin /\ ex[r].on
   /\ Continue(r, <<Ev("rx", r, "ACK", ex[r].n.mid, "", "empty", 0, -1, -1, 0, ex[r].idx, "")>>, << >>, bl[r])
-  /\ UNCHANGED <<now, chg, nreg, reg, nextMid, pmid, lastReq, lastNon, rs, slot, shut, fin, benv, bsil>>
+  /\ UNCHANGED <<now, chg, nreg, reg, nextMid, pmid, lastReq, lastNon, rs, ea, slot, shut, fin, benv, bsil>>
 
 (* -- ... or rejects it: _remove_exchange calls the message-error monitor,      *)
 (*    i.e. the stopper of the pipe that sent it (and of no other pipe) -------- *)
@@ -280,23 +363,32 @@ Rst(r) ==
          o == ex[r].n.o
          hit == g # 0 /\ reg[o].g = g             \* that pipe is still the running one
      IN /\ Continue(r, <<Ev("rx", r, "RST", ex[r].n.mid, "", "empty", 0, -1, -1, 0, ex[r].idx, "")>>,
-                    IF hit THEN StopEvs(o, g, Count(reg)) ELSE << >>,
+                    IF hit THEN StopEvs(o, g, CountQ(reg, Res(o))) ELSE << >>,
                     IF DropQueuedOnStop THEN Drop(bl[r], g) ELSE bl[r])
         /\ reg' = IF hit THEN [reg EXCEPT ![o] = NoReg] ELSE reg
         /\ rs' = IF hit THEN [rs EXCEPT ![o] = NoRs] ELSE rs
         /\ slot' = IF hit THEN [slot EXCEPT ![o] = NoSlot] ELSE slot
-  /\ UNCHANGED <<now, chg, nreg, nextMid, pmid, lastReq, lastNon, shut, fin, benv, bsil>>
+  /\ UNCHANGED <<now, chg, nreg, nextMid, pmid, lastReq, lastNon, ea, shut, fin, benv, bsil>>
 
-(* -- a Reset answering a NON notification: no exchange, nothing happens ------ *)
+(* -- a Reset answering the NON response sent last to r by a registration:      *)
+(*    RstNonEnds: it stops the pipe that sent it (if that is still the running  *)
+(*    one) like a Reset to a confirmable one; otherwise: no exchange, nothing   *)
 RstNon(r) ==
   /\ ~shut /\ ~fin /\ benv > 0 /\ lastNon[r].idx # 0
-  /\ Step(<<Ev("rx", r, "RST", lastNon[r].mid, "", "empty", 0, -1, -1, 0, lastNon[r].idx, "")>>)
+  /\ LET L == lastNon[r]
+         hit == RstNonEnds /\ L.g # 0 /\ reg[L.o].g = L.g
+     IN /\ Step(<<Ev("rx", r, "RST", L.mid, "", "empty", 0, -1, -1, 0, L.idx, "")>>
+                \o (IF hit THEN StopEvs(L.o, L.g, CountQ(reg, Res(L.o))) ELSE << >>))
+        /\ reg' = IF hit THEN [reg EXCEPT ![L.o] = NoReg] ELSE reg
+        /\ rs' = IF hit THEN [rs EXCEPT ![L.o] = NoRs] ELSE rs
+        /\ slot' = IF hit THEN [slot EXCEPT ![L.o] = NoSlot] ELSE slot
+        /\ bl' = IF hit /\ DropQueuedOnStop THEN [bl EXCEPT ![r] = Drop(@, L.g)] ELSE bl
   /\ benv' = benv - 1
-  /\ UNCHANGED <<now, chg, nreg, reg, ex, bl, nextMid, pmid, lastReq, nsent, lastNon, rs, slot, shut, fin, bsil>>
+  /\ UNCHANGED <<now, chg, nreg, ex, nextMid, pmid, lastReq, nsent, lastNon, ea, shut, fin, bsil>>
 
-\* every pipe of endpoint r is stopped (dispatch_error)
+\* every pipe of endpoint r is stopped (dispatch_error); piggy-back opportunities are not touched by it
 StopRemote(r, pre) ==
-  /\ Step(pre \o StopSet(1, On(r), reg, Count(reg)))
+  /\ Step(pre \o StopSet(1, On(r), reg))
   /\ ex' = [ex EXCEPT ![r] = NoEx] /\ bl' = [bl EXCEPT ![r] = << >>]
   /\ reg' = [o \in Observers |-> IF Rem(o) = r THEN NoReg ELSE reg[o]]
   /\ rs' = [o \in Observers |-> IF Rem(o) = r THEN NoRs ELSE rs[o]]
@@ -313,49 +405,54 @@ TimerRetransmit(r) ==
        ELSE \* give up: the backlog of the remote is dropped, dispatch_error stops every pipe of the remote
             StopRemote(r, << >>)
   /\ bsil' = IF bsil > 0 THEN bsil - 1 ELSE 0
-  /\ UNCHANGED <<now, chg, nreg, nextMid, pmid, lastReq, nsent, lastNon, shut, fin, benv>>
+  /\ UNCHANGED <<now, chg, nreg, nextMid, pmid, lastReq, nsent, lastNon, ea, shut, fin, benv>>
 
 (* -- ICMP error reported for remote r (MessageManager.dispatch_error) --------- *)
 Err(r) ==
   /\ ~shut /\ ~fin /\ benv > 0
   /\ StopRemote(r, <<Plain("err", r, "", -1, 0, 0, "")>>)
   /\ benv' = benv - 1
-  /\ UNCHANGED <<now, chg, nreg, nextMid, pmid, lastReq, nsent, lastNon, shut, fin, bsil>>
+  /\ UNCHANGED <<now, chg, nreg, nextMid, pmid, lastReq, nsent, lastNon, ea, shut, fin, bsil>>
 
 (* -- Context.shutdown: every pipe stopped, every timer cancelled -------------- *)
 Shutdown ==
   /\ ~shut /\ ~fin /\ benv > 0
-  /\ Step(<<Plain("shutdown", 0, "", -1, 0, 0, "")>> \o StopSet(1, Observers, reg, Count(reg))
+  /\ Step(<<Plain("shutdown", 0, "", -1, 0, 0, "")>> \o StopSet(1, Observers, reg)
           \o <<Plain("shutdown-done", 0, "", -1, 0, 0, "ok")>>)
   /\ shut' = TRUE
   /\ reg' = [o \in Observers |-> NoReg] /\ ex' = [r \in Remotes |-> NoEx] /\ bl' = [r \in Remotes |-> << >>]
-  /\ rs' = [o \in Observers |-> NoRs] /\ slot' = [o \in Observers |-> NoSlot]
+  /\ rs' = [o \in Observers |-> NoRs] /\ slot' = [o \in Observers |-> NoSlot] /\ ea' = [o \in Observers |-> NoEa]
   /\ benv' = benv - 1
   /\ UNCHANGED <<now, chg, nreg, nextMid, pmid, lastReq, nsent, lastNon, fin, bsil>>
 
 (* -- the clock: an endpoint may stay silent across at most MaxSilence timers -- *)
 Tick == /\ ~fin /\ ~TimerDue /\ now < MaxTime
-        /\ \E r \in Remotes : ex[r].on           \* idle waiting changes nothing: time passes only towards a timer
+        \* idle waiting changes nothing: time passes only towards a timer
+        /\ (\E r \in Remotes : ex[r].on) \/ (\E o \in Observers : ea[o].on)
         /\ Cardinality({r \in Remotes : ex[r].on /\ ex[r].due = now + 1}) <= bsil
         /\ now' = now + 1 /\ emit' = << >>
-        /\ UNCHANGED <<chg, nreg, reg, ex, bl, nextMid, pmid, lastReq, nsent, lastNon, rs, slot, shut, fin, benv, bsil, obs>>
+        /\ UNCHANGED <<chg, nreg, reg, ex, bl, nextMid, pmid, lastReq, nsent, lastNon, rs, ea, slot, shut, fin, benv, bsil, obs>>
 
 (* -- quiescence: nothing in flight, no timer armed, no rendering suspended ---- *)
-End == /\ ~fin /\ (\A r \in Remotes : ~ex[r].on) /\ (\A o \in Observers : ~rs[o].on)
+End == /\ ~fin /\ (\A r \in Remotes : ~ex[r].on) /\ (\A o \in Observers : ~rs[o].on /\ ~ea[o].on)
        /\ Step(<<Plain("end", 0, "", -1, 0, 0, "")>>)
        /\ fin' = TRUE
-       /\ UNCHANGED <<now, chg, nreg, reg, ex, bl, nextMid, pmid, lastReq, nsent, lastNon, rs, slot, shut, benv, bsil>>
+       /\ UNCHANGED <<now, chg, nreg, reg, ex, bl, nextMid, pmid, lastReq, nsent, lastNon, rs, ea, slot, shut, benv, bsil>>
 
 Next == \/ \E r \in Remotes : TimerRetransmit(r)
+        \/ \E o \in Observers : EmptyAck(o)
         \* (observers are interchangeable: observer o + 1 does not appear before observer o)
         \/ (~TimerDue /\ \E o \in Observers, ty \in {"CON", "NON"} :
                (IF o = 1 THEN TRUE ELSE lastReq[o - 1].rx # << >>) /\ Request(o, ty, "reg"))
         \/ (~TimerDue /\ \E o \in Observers, ty \in {"CON", "NON"} : reg[o].g # 0 /\ Request(o, ty, "dereg"))
+        \/ (~TimerDue /\ Big /\ \E o \in Observers, ty \in {"CON", "NON"} : reg[o].g # 0 /\ Request(o, ty, "blk"))
         \/ (~TimerDue /\ \E o \in Observers : DupRequest(o))
         \* (an unrelated request matters where something of the endpoint waits in the backlog; explored in the
         \* configurations with several tokens per endpoint)
-        \/ (~TimerDue /\ SharedEndpoint /\ \E r \in Remotes : bl[r] # << >> /\ Unrelated(r, "CON"))
-        \/ (~TimerDue /\ \E k \in 1..MaxChanges, x \in {"", "ok", "unsucc", "last"} : Change(k, x))
+        \/ (~TimerDue /\ SharedEndpoint /\ \E o \in Observers : bl[Rem(o)] # << >> /\ Unrelated(Rem(o), "CON", Res(o), FALSE))
+        \* (a block of the large representation fetched on another token while the registration runs)
+        \/ (~TimerDue /\ Big /\ \E o \in Observers, ty \in {"CON", "NON"} : reg[o].g # 0 /\ Unrelated(Rem(o), ty, Res(o), TRUE))
+        \/ (~TimerDue /\ \E k \in 1..MaxChanges, x \in {"", "ok", "unsucc", "last"}, q \in {Res(o) : o \in Observers} : Change(k, x, q))
         \/ (~TimerDue /\ \E r \in Remotes : Ack(r) \/ Rst(r) \/ RstNon(r))
         \/ (~TimerDue /\ \E o \in Observers : Release(o))
         \/ (~TimerDue /\ \E r \in Remotes : Err(r))
@@ -366,7 +463,7 @@ Next == \/ \E r \in Remotes : TimerRetransmit(r)
 Spec == Init /\ [][Next]_vars
 
 NoBad == obs.bad = {}
-\* state-based forms of the bookkeeping clauses
-CountMatches == obs.cnt = Count(reg)
-View == <<now, chg, nreg, reg, ex, bl, nextMid, pmid, lastReq, nsent, lastNon, rs, slot, shut, fin, benv, bsil, obs>>
+\* state-based forms of the bookkeeping clauses: per resource the reported count is the number of running tasks
+CountMatches == \A q \in DOMAIN obs.cnt : obs.cnt[q] = CountQ(reg, q)
+View == <<now, chg, nreg, reg, ex, bl, nextMid, pmid, lastReq, nsent, lastNon, rs, ea, slot, shut, fin, benv, bsil, obs>>
 =============================================================================
